@@ -3,6 +3,7 @@ package c10
 
 import (
 	"bufio"
+	"bytes"
 	"encoding/json"
 	"fmt"
 	"os"
@@ -42,6 +43,12 @@ const readerDocPath = "/srv/incoming/upload/hello_2.10-1.dsc"
 
 var fileVias = []string{"file-abs", "file-rel", "file-dotrel", "file-parent"}
 
+// debVias: the encodings of control.tar the harness can produce in-process (xz and bzip2 need an external tool and are
+// C14's business)
+var debVias = []string{"deb:none", "deb:gz", "deb:lzma", "deb:zst"}
+
+var debComp = gen.NewDebCompressor()
+
 var (
 	fileRootOnce sync.Once
 	fileRootDir  string
@@ -68,7 +75,7 @@ func fileRoot() string {
 
 // docPathOf is the absolute path the parsed document must carry as its Filename.
 func docPathOf(in In) string {
-	if in.Via == "" {
+	if !strings.HasPrefix(in.Via, "file-") {
 		return readerDocPath
 	}
 	return filepath.Join(fileRoot(), "incoming", "hello_2.10-1."+in.Kind)
@@ -296,7 +303,7 @@ func render(in In) (string, [][]FSpec) {
 
 // parse runs the kind's typed parser and returns the decoded paragraphs as reflect values.
 func parse(in In, text string) (paras []reflect.Value, err error) {
-	if in.Via != "" {
+	if strings.HasPrefix(in.Via, "file-") {
 		return parseFile(in, text)
 	}
 	docPath := docPathOf(in)
@@ -361,6 +368,23 @@ func parse(in In, text string) (paras []reflect.Value, err error) {
 		}
 		return out, nil
 	case "debcontrol":
+		if strings.HasPrefix(in.Via, "deb:") {
+			// the control file where it lives: ./control inside control.tar[.<ext>] of a format-2.0 package, read by deb.Load
+			comp := strings.TrimPrefix(in.Via, "deb:")
+			ct, e := debComp.Compress(comp, gen.BuildTar([]gen.TarEntry{{Name: "./", Dir: true}, {Name: "./md5sums", Body: []byte("d41d8cd98f00b204e9800998ecf8427e  usr/bin/hello\n")}, {Name: "./control", Body: []byte(text)}}))
+			if e != nil {
+				return nil, fmt.Errorf("harness: %v", e)
+			}
+			ar := gen.BuildAr([]gen.ArMember{{Name: "debian-binary", Data: []byte("2.0\n")}, {Name: "control.tar" + gen.DebCompExt(comp), Data: ct},
+				{Name: "data.tar", Data: gen.BuildTar([]gen.TarEntry{{Name: "./usr/bin/hello", Body: []byte("#!/bin/sh\n")}})}})
+			d, e := deb.Load(bytes.NewReader(ar), "/srv/pool/hello_2.10-1_amd64.deb")
+			if e != nil {
+				return nil, e
+			}
+			defer d.Close()
+			c := d.Control
+			return []reflect.Value{reflect.ValueOf(&c).Elem()}, nil
+		}
 		var c deb.Control
 		if e := control.Unmarshal(&c, br); e != nil {
 			return nil, e
@@ -765,6 +789,11 @@ func buildIn(kd *kindDef, x *mc.X, env bool) (In, []string) {
 	if kd.name == "dsc" || kd.name == "changes" || kd.name == "control" {
 		if c := dev(1+len(fileVias), "entry"); c > 0 {
 			in.Via = fileVias[c-1]
+		}
+	}
+	if kd.name == "debcontrol" {
+		if c := dev(1+len(debVias), "entry"); c > 0 {
+			in.Via = debVias[c-1]
 		}
 	}
 	switch dev(3, "bufio-size") {
